@@ -218,3 +218,4 @@ more("C16","Every EC JWK that the predicate refuses is also read with a d member
 more("C18","Created / updated times at the width boundaries of the seconds count: 2^31, 2^32, 9223372036 and 9223372037 (the last second whose nanosecond count fits int64 and the first that does not), 253402300799.")
 # round 14
 more("C14","Documents with key and service ids of 49 and 50 characters (the greatest allowed length).")
+more("C16","The unchanged-value cases also with n and e members beside every EC / OKP key (members of another key type are members like any other).")
